@@ -1,1 +1,6 @@
-
+import Props.C02
+import Props.C03
+import Props.C08
+import Props.C09
+import Props.C13
+import Props.C20
